@@ -382,6 +382,11 @@ func main() {
 				ev["rebuilt"] = mschema.Abs(res[0]).Fill()
 			}()
 		case "c16":
+			// the gateway names the root operation types of ITS schema Query / Mutation / Subscription whatever a
+			// service calls them (operations name them by keyword); which roots exist must agree
+			for r := range orig.RootNames {
+				orig.RootNames[r] = r
+			}
 			g, gerr := pebbles.NewGateway([]string{"http://svc.test"}, pebbles.WithRemoteSchemaIntrospector(&sdlIntro{sch: sch}))
 			if gerr != nil {
 				ev["err"] = "gateway did not start: " + gerr.Error()
